@@ -126,6 +126,28 @@ func c16Gen(g *core.Gen) {
 			emit(&p2Case{Cfg: cfg, Dmg: []scen.Dmg{op}, G: 1, AutoPrune: true, Extra: []string{"c16"}})
 		}
 	}
+	// files whose last bytes are zero and get cut off (the zero padding of the scan window stands in for them): every
+	// truncation point, with last slices of 3 / 2 bytes (slice 4) and 7 / 3 bytes (slice 8), alone and with an insert in
+	// front; plus same-size displacement - n bytes inserted at a and n bytes cut at b in one file, every a < b
+	for _, cfg := range []scen.P2Config{{Sizes: []int{11, 6}, Slice: 4, Blocks: 4, Class: "trailzero2"}, {Sizes: []int{23, 11}, Slice: 8, Blocks: 4, Class: "trailzero2"}} {
+		for f, n := range cfg.Sizes {
+			for at := 1; at < n; at++ {
+				emit(&p2Case{Cfg: cfg, Dmg: []scen.Dmg{{Op: "trunc", F: f, At: at}}, G: 1, AutoPrune: true, Extra: []string{"c16"}})
+				emit(&p2Case{Cfg: cfg, Dmg: []scen.Dmg{{Op: "ins", F: f, At: 0, N: 1}, {Op: "trunc", F: f, At: at}}, G: 1, AutoPrune: true, Extra: []string{"c16"}})
+			}
+		}
+	}
+	{
+		cfg := scen.P2Config{Sizes: []int{30, 9}, Slice: 4, Blocks: 8, Class: "uniq"}
+		for n := 1; n <= 5; n++ {
+			for a := 0; a < 30; a++ {
+				for b := a + 1; b+n <= 30+n; b++ {
+					// after the insert at a the file has 30+n bytes; cutting n bytes at b > a restores the size
+					emit(&p2Case{Cfg: cfg, Dmg: []scen.Dmg{{Op: "ins", F: 0, At: a, N: n}, {Op: "cut", F: 0, At: b, N: n}}, G: 1, AutoPrune: true, Extra: []string{"c16"}})
+				}
+			}
+		}
+	}
 	// slices carrying the boundary values of the 32-bit checksum field (0, 1, 0xffffffff, 0x80000000, ...), displaced by
 	// every insert / cut of 1..slice+1 bytes at every offset of the first two slices and at the file's end
 	for _, cfg := range []scen.P2Config{{Sizes: []int{59, 20}, Slice: 8, Blocks: 4, Class: "crcfield"}, {Sizes: []int{26, 9}, Slice: 4, Blocks: 3, Class: "crcfield"}} {
@@ -209,7 +231,7 @@ func init() {
 			if t.N != t.K {
 				r.Count("blocks_left_differ_from_lost_slices", 1)
 			}
-			if len(c.Dmg) > 0 && (c.Dmg[0].Op == "ins" || c.Dmg[0].Op == "cut") {
+			if len(c.Dmg) == 1 && (c.Dmg[0].Op == "ins" || c.Dmg[0].Op == "cut") {
 				// the geometry is an upper bound: a byte next to the edit that happens to equal the
 				// byte it replaced can re-complete a slice (the brute-force scan is the truth)
 				want := c16Lost(c.Cfg.Sizes[0], c.Cfg.Slice, c.Dmg[0].Op == "ins", c.Dmg[0].At, c.Dmg[0].N)
